@@ -168,4 +168,10 @@ def parseInscription (s : Bytes) : Chk InscRes :=
       let (z9, z11) ← inscZeroFlags s parts 12 0 0 false false
       pure (.ok (s.take 25) (if z9 then [] else ct) (if z11 then [] else d))
 
+/-- the byte pattern Script.IsInscribed looks for: OP_FALSE OP_IF <push "ord"> -/
+def inscriptionMarker : Bytes := [0x00, 0x63, 0x03, 0x6f, 0x72, 0x64]
+
+/-- Script.IsInscribed: bytes.Contains(script, 0063036f7264) -/
+def isInscribed (s : Bytes) : Bool := decide (inscriptionMarker <:+: s)
+
 end GoBT.Script
